@@ -300,6 +300,18 @@ def run_config(key):
                              undefined=undefined_columns(model, m, aff_shape, c['mask']) if onehot else None)
     if bad:
         return viol(f'{model}: {bad}', post)
+    if model == 'cacgmm':
+        # the second documented way to obtain the posterior: together with the quadratic forms
+        try:
+            kw_q = {} if c['mask'] is None else dict(source_activity_mask=c['mask'])
+            post_q, qf = m.predict(c['data'], return_quadratic_form=True, **kw_q)
+        except Exception as e:  # noqa
+            return viol(f'cacgmm: predict(return_quadratic_form=True) raised {e!r}')
+        if not np.array_equal(np.asarray(post_q), np.asarray(post)):
+            return viol('cacgmm: predict(return_quadratic_form=True) returns another posterior than predict '
+                        f'(max difference {np.abs(np.asarray(post_q) - np.asarray(post)).max():.3e})')
+        if np.asarray(qf).shape != aff_shape or not np.isfinite(qf).all() or (np.asarray(qf) < 0).any():
+            return viol('cacgmm: quadratic forms returned by predict are not finite non-negative (..., K, N)')
     # (2) Bayes oracle
     try:
         logp = M.component_logpdf(model, m, c['data'])
@@ -343,7 +355,8 @@ def run_config(key):
 
 
 LOGPDF_ALPHABET = (-1e5, -800.0, -1.0, 0.0, 3.0, 800.0, 1e5)
-WEIGHT_ROWS = {2: ((0.5, 0.5), (0.9, 0.1), (1.0, 0.0), (1e-10, 1 - 1e-10)),
+WEIGHT_ROWS = {1: ((1.0,), (0.25,), (0.0,)),
+               2: ((0.5, 0.5), (0.9, 0.1), (1.0, 0.0), (1e-10, 1 - 1e-10)),
                3: ((1 / 3, 1 / 3, 1 / 3), (0.7, 0.2, 0.1), (0.5, 0.5, 0.0), (0.0, 1.0, 0.0), (1e-10, 0.5, 0.5 - 1e-10))}
 
 
@@ -572,14 +585,14 @@ def subchecks(tier, seed):
                         for it in (1, 3):
                             yield (K, N, lead, mk, it, seed)
     def routine_cases():
-        for K in (2, 3):
+        for K in (1, 2, 3):
             for L in itertools.product(LOGPDF_ALPHABET, repeat=K):
                 for mb in [None] + list(itertools.product((True, False), repeat=K)):
                     for w in WEIGHT_ROWS[K]:
                         for eps in (0.0, 1e-10):
                             yield (K, L, mb, w, eps)
     subs.append(Sub('posterior_routine', ('K', 'logpdf', 'mask', 'weight', 'eps'), routine_cases, run_routine,
-                    bound=dict(K=[2, 3], logpdf_alphabet=list(LOGPDF_ALPHABET), masks='all activity patterns',
+                    bound=dict(K=[1, 2, 3], logpdf_alphabet=list(LOGPDF_ALPHABET), masks='all activity patterns',
                                weights={str(k): [list(r) for r in v] for k, v in WEIGHT_ROWS.items()},
                                eps=[0.0, 1e-10]), exhaustive=True))
     subs.append(Sub('fit_predict_with_mask', ('K', 'N', 'lead', 'mask', 'it', 'seed'),
